@@ -298,7 +298,7 @@ META["C19"] = {
 
 META["C14"] = {
     "title": "Conversions and completion status report the real outcome and never hang",
-    "rule": "cases = (conversion in to_future / to_stream / complete_status over Subject or SubjectThreads, script of 0..n items (quick n=4, thorough n=6) then complete / error / neither, optionally followed by a post-terminal item, with 0-2 manual polls placed before, between and after the events, polled with a counting waker; optionally another subscriber of the same subject ahead of the conversion, already unsubscribed or still open; in a quarter of the cases the conversion is attached to subject.share() / share_threads() whose first subscriber, a take(1), has already been served by one item and finished - counter conversions_attached_through_a_share; in a sixth the conversion is attached to a cold synchronous `create` source that plays the whole script inside the conversion's own subscription, i.e. before the first poll - counter conversions_of_a_cold_synchronous_source). After a terminal the future/stream is polled at most twice more per element and must be ready; a poll that returned Pending before the terminal must have been woken by it; complete_status flags are compared after every step with what the probe saw and with the source calls that have returned and wait_for_end is called once the source has terminated. Plus the gate scenarios: a real waiter thread in wait_for_end is stopped at the hooked point of StatusFuture::poll while the producer thread runs complete()/error() (placements: terminal before the wait, inside the hooked window, after the waiter's first poll) x {complete, error}. Plus free-running two-thread races (quick 3000, thorough 300000): a real waiter thread blocks in block_on(to_future) / block_on(to_stream.collect) / a busy poll_next loop on to_stream / wait_for_end on a SubjectThreads while the producing thread emits 0-3 items and a terminal with seeded yields, sleeps and spins (and the hook-point jitter on half of them); the waiter must return (bounded progress: within 20 s of the producer's terminal call having returned) with exactly the modelled outcome. Half of the waiter threads hold a stale unpark token when they start to wait (as after an earlier block_on on the same thread; a park may also return spuriously), and one to_stream race in six is a long one (130 / 300 / 700 items sent back to back, so that hundreds of elements are ready at once). Every manual poll uses a waker of its own; the waker handed over by the most recent pending poll is the one that must be woken. A further battery (counter status_above_an_early_terminator_cases) puts complete_status() above take(0|1|2) over a `create` source driven through its stashed Subscriber / SubscriberThreads (0-3 items then complete / error / nothing): the flags must follow the source's calls and wait_for_end must return once it terminated. Non-trivial: the source terminated while a poll had returned Pending, or terminated by error; distinct = hash(case).",
+    "rule": "cases = (conversion in to_future / to_stream / complete_status over Subject or SubjectThreads, script of 0..n items (quick n=4, thorough n=6) then complete / error / neither, optionally followed by a post-terminal item, with 0-2 manual polls placed before, between and after the events, polled with a counting waker; optionally another subscriber of the same subject ahead of the conversion, already unsubscribed or still open; in a quarter of the cases the conversion is attached to subject.share() / share_threads() whose first subscriber, a take(1), has already been served by one item and finished - or, in half of these, a sibling subscriber that came and went before the first item; counter conversions_attached_through_a_share; in a sixth the conversion is attached to a cold synchronous `create` source that plays the whole script inside the conversion's own subscription, i.e. before the first poll - counter conversions_of_a_cold_synchronous_source). After a terminal the future/stream is polled at most twice more per element and must be ready; a poll that returned Pending before the terminal must have been woken by it; complete_status flags are compared after every step with what the probe saw and with the source calls that have returned and wait_for_end is called once the source has terminated. Plus the gate scenarios: a real waiter thread in wait_for_end is stopped at the hooked point of StatusFuture::poll while the producer thread runs complete()/error() (placements: terminal before the wait, inside the hooked window, after the waiter's first poll) x {complete, error}. Plus free-running two-thread races (quick 3000, thorough 300000): a real waiter thread blocks in block_on(to_future) / block_on(to_stream.collect) / a busy poll_next loop on to_stream / wait_for_end on a SubjectThreads while the producing thread emits 0-3 items and a terminal with seeded yields, sleeps and spins (and the hook-point jitter on half of them); the waiter must return (bounded progress: within 20 s of the producer's terminal call having returned) with exactly the modelled outcome. Half of the waiter threads hold a stale unpark token when they start to wait (as after an earlier block_on on the same thread; a park may also return spuriously), and one to_stream race in six is a long one (130 / 300 / 700 items sent back to back, so that hundreds of elements are ready at once). Every manual poll uses a waker of its own; the waker handed over by the most recent pending poll is the one that must be woken. A further battery (counter status_above_an_early_terminator_cases, 144 cases) puts complete_status() above take(0|1|2), with and without collect() above the status (an aggregating stage hands over its one item and its completion back to back), over a `create` source driven through its stashed Subscriber / SubscriberThreads (0-3 items then complete / error / nothing): the flags must follow the source's calls and wait_for_end must return once it terminated. Non-trivial: the source terminated while a poll had returned Pending, or terminated by error; distinct = hash(case).",
     "assumptions": COMMON_ASSUME + [
         "for 'items then error' to_future() may resolve to the error or to MultipleValues (the documentation fixes only the pure cases); it must resolve",
         "'never hang' is read as bounded progress: ready within two polls after termination (logical); in the gate scenarios the waiter gets 20 s, and only after the logical witness (waiter reached the hooked point, producer's terminal call returned) exists; no witness + timeout = inconclusive",
